@@ -3,14 +3,34 @@ import os, subprocess, time
 from .prog import parse_reg
 
 VERIF = os.path.dirname(os.path.dirname(os.path.dirname(os.path.abspath(__file__))))
-WORK = os.path.join(VERIF, '.work')
+# development aid: GV_REPO points the machinery at a scratch checkout of geonum instead of /repo
+# (registered checks never set it); each such checkout gets its own work directory
+REPO = os.environ.get('GV_REPO', '/repo')
+if REPO == '/repo':
+    WORK = os.path.join(VERIF, '.work')
+    HARNESS = os.path.join(VERIF, 'harness')
+else:
+    import hashlib as _h
+    WORK = os.path.join(VERIF, '.work', 'alt_' + _h.sha1(REPO.encode()).hexdigest()[:10])
+    HARNESS = os.path.join(WORK, 'harness_src')
 TARGET = os.path.join(WORK, 'target')
-HARNESS = os.path.join(VERIF, 'harness')
+
+def _prepare_alt_harness():
+    import shutil
+    src = os.path.join(VERIF, 'harness')
+    os.makedirs(os.path.join(HARNESS, 'src'), exist_ok=True)
+    os.makedirs(os.path.join(HARNESS, '.cargo'), exist_ok=True)
+    for fn in ('src/main.rs', 'src/libmrec.rs', '.cargo/config.toml'):
+        shutil.copyfile(os.path.join(src, fn), os.path.join(HARNESS, fn))
+    toml = open(os.path.join(src, 'Cargo.toml')).read().replace('path = "/repo"', 'path = "%s"' % REPO)
+    open(os.path.join(HARNESS, 'Cargo.toml'), 'w').write(toml)
 
 class BuildError(Exception):
     pass
 
 def build(profile):
+    if REPO != '/repo':
+        _prepare_alt_harness()
     env = dict(os.environ)
     env['CARGO_TARGET_DIR'] = TARGET
     env['CARGO_NET_OFFLINE'] = 'true'
